@@ -5,7 +5,7 @@
 (* One specification step consumes one record; a record the specification   *)
 (* cannot explain is printed as a FAIL line.  Nothing is decided outside     *)
 (* TLC except byte-order facts about concrete strings (`strictly_sorted`).   *)
-EXTENDS Targets, Dag, TLC, Json, IOUtils, SequencesExt
+EXTENDS Targets, Dag, TLC, Json, IOUtils, SequencesExt, FiniteSetsExt
 
 Rec == ndJsonDeserialize(IOEnv.TRACE)
 
@@ -85,7 +85,25 @@ DagWhy(r) ==
           ELSE IF ~ValidLayering(a, V, GroupSets(r.out.groups)) THEN "groups are not a valid layering of the closure of the roots"
           ELSE ""
 
+\* large acyclic graphs: acyclicity is established by checking the recorded topological rank (a certificate) edge by
+\* edge; the layering is then checked with a position function (linear in nodes x groups + edges)
+DagBigWhy(r) ==
+  LET n    == Len(r.adj)
+      a(k) == RangeOf(r.adj[k + 1])
+      cert == \A k \in 0..(n - 1) : \A u \in a(k) : r.rank[u + 1] < r.rank[k + 1]
+  IN IF ~cert THEN "harness: acyclicity certificate does not check"
+     ELSE IF ~r.out.ok THEN "acyclic graph rejected"
+     ELSE LET g   == r.out.groups
+              all == UNION { RangeOf(g[i]) : i \in DOMAIN g }
+              cnt == FoldSet(LAMBDA i, acc : acc + Len(g[i]), 0, DOMAIN g)
+          IN IF all # 0..(n - 1) \/ cnt # n \/ \E i \in DOMAIN g : g[i] = <<>>
+             THEN "groups are not a valid layering of the closure of the roots"
+             ELSE LET pos == [ k \in 0..(n - 1) |-> CHOOSE i \in DOMAIN g : k \in RangeOf(g[i]) ]
+                  IN IF \E k \in 0..(n - 1) : \E u \in a(k) : pos[u] >= pos[k]
+                     THEN "groups are not a valid layering of the closure of the roots" ELSE ""
+
 Why(r) == CASE r.ev = "analyze" -> AnalyzeWhy(r)
+            [] r.ev = "dag_big" -> DagBigWhy(r)
             [] r.ev = "dag"     -> DagWhy(r)
             [] r.ev = "edges"   -> EdgesWhy(r)
             [] r.ev = "groups"  -> GroupsWhy(r)
